@@ -674,6 +674,7 @@ def r35(ctx, R):
     if filt is not None and len(filt['gens']) == 1 and src(
             filt['gens'][0][1]) == P and len(filt['conds']) == 1:
         e, pol = filt['conds'][0]
+        e = C.fuse_comprehensions(e)
         lv = src(filt['gens'][0][0])
         if pol and isinstance(e, ast.Compare) and isinstance(
                 e.ops[0], ast.Eq):
